@@ -42,6 +42,10 @@ func c09tables(w *World) *c09Tables {
 		t.revertable[w.Field(statePkg, "StateDB", f)] = "StateDB." + f
 	}
 	t.revertable[w.Field(statePkg, "Validator", "deleted")] = "Validator.deleted"
+	// staking-trie state: observable through the staking root, NOT journaled today (F12)
+	for _, f := range []string{"stakingRecordsDirty", "pendingRelatsDirty"} {
+		t.revertable[w.Field(statePkg, "StateDB", f)] = "StateDB." + f
+	}
 	// raw setters: write a revertable field and leave journaling to their callers
 	for _, m := range []string{"setBalance", "setNonce", "setCode", "setState", "setDelegationBalance", "setDelegations", "markSuicided"} {
 		o := w.FuncObj(statePkg, "stateObject", m)
@@ -83,6 +87,8 @@ func c09tables(w *World) *c09Tables {
 		"(core/state.StateDB).updateValidator":           "flush to the trie at IntermediateRoot: index entry of a validator that is already live",
 		"(core/state.StateDB).deleteValidator":           "flush to the trie at IntermediateRoot after the journal was dropped",
 		"(core/state.StateDB).Finalise":                  "end of transaction: marks deleted objects after which the journal is dropped",
+		"(core/state.StateDB).ResetStakingTrie":          "block set-up at a period boundary, before any transaction of the block (callers tabled by J5)",
+		"(core/state.StateDB).updateStakingTrie":         "flush to the staking trie at IntermediateRoot, after the journal was dropped",
 		"core/state.New":                                 "constructor",
 		"core/state.NewVldReader":                        "constructor",
 		"(core/state.Validator).PartialCopy":             "copy constructor: writes the fresh copy only",
